@@ -33,3 +33,25 @@ def nr_roundtrip_listed(k, x, y, **kw):
 
 def nr_roundtrip_dotted(tn, x, y, **kw):
     return _rt(tn, x, y, x, y)
+
+
+def rename_updates_ranges(new, **kw):
+    from odfdo import Document, Table
+    try:
+        new2 = _table_name_check(new)
+    except ValueError:
+        return False, "refused"
+    doc = Document("spreadsheet")
+    body = doc.body
+    body.clear()
+    t1, zz = Table("t1", width=3, height=3), Table("zz", width=3, height=3)
+    body.append(t1)
+    body.append(zz)
+    t1.set_named_range("rng_a", (0, 0, 1, 1))
+    zz.set_named_range("rng_b", (1, 1, 2, 2))
+    table = body.get_table(name="t1")
+    table.name = new
+    r1, r2 = body.get_named_range("rng_a"), body.get_named_range("rng_b")
+    found = table.get_named_ranges(table_name=new2)
+    ok = table.name == new2 and r1.table_name == new2 and r1.crange == (0, 0, 1, 1) and r2.table_name == "zz" and len(found) == 1 and found[0].name == "rng_a"
+    return (not ok), f"after renaming t1 to {new2!r}: r1 points to {r1.table_name!r} {r1.crange}, r2 to {r2.table_name!r}; ranges found for the new name: {[f.name for f in found]}"
